@@ -262,6 +262,13 @@ async def run_many_downloads(flavor, p, cnt, v, sigs):
         v(f"download-failed:many-responses:{exc_name(out.exc) if out.kind == 'exc' else 'short'}", f"{out!r}", ctx)
     elif len(net.transports) != 1:
         v("many-responses-not-on-one-connection", f"{len(net.transports)} connections", ctx)
+    if out.kind == "ok":
+        # exact conservation, read off the client's own window manager: nothing received may be neither returned nor noted
+        from ..world import h2_credit_leaks
+        cnt["oracle_credit_conserved"] = cnt.get("oracle_credit_conserved", 0) + 1
+        for leak in h2_credit_leaks(pool):
+            v("connection-credit-leaked:many-responses", f"after {p['count']} responses of {size} bytes ({abandon or 'all read'}) the "
+              f"connection owes {leak['owed']} bytes of credit that it has not noted for return ({leak})", ctx)
     await guarded(flavor, api.close_pool)
 
 
